@@ -53,10 +53,18 @@ func (p c13) Run(c *core.Ctx) {
 	nOther := len(sc.Nodes)
 	nr := c.Rng.Intn(11)
 	var runners []int
+	lateOrd := 0
 	for i := 0; i < nr; i++ {
 		k := g.AddRandomNode(world.TypesRunner, 0.25)
 		sc.Nodes[k].Ord = []int{0, 0, 1, 1, -1, 3, 3, -5, 7, math.MaxInt, math.MinInt, math.MaxInt - 1, -1 << 62}[c.Rng.Intn(13)]
 		runners = append(runners, k)
+		if ti := world.Palette[sc.Nodes[k].Type]; (ti.Init || ti.Aps) && c.Rng.Intn(3) == 0 {
+			// a runner that learns its position while it is initialised: the sequence follows the orders the
+			// runners have when the container is ready, not a provisional one
+			pv := []int{0, 1, -1, 3, 7, -5}[c.Rng.Intn(6)]
+			sc.Nodes[k].ProvisionalOrd = &pv
+			lateOrd++
+		}
 		// dependencies of the runner
 		for x := 0; x < c.Rng.Intn(3); x++ {
 			if nOther > 0 && c.Rng.Intn(2) == 0 {
@@ -71,6 +79,7 @@ func (p c13) Run(c *core.Ctx) {
 	}
 	// a runner whose own creation fails (permanently, or on the first attempt only): the start must fail
 	// and no runner may run - the runner must not silently disappear from the sequence
+	c.Count("runners_with_order_settled_during_initialization", lateOrd)
 	creationFault := -1
 	if nr > 0 && c.Rng.Intn(6) == 0 {
 		var cands []int
